@@ -23,6 +23,13 @@ Theorem handler_loops_receive_until_close : loops_ok reader_loops = true.
 Proof. vm_compute. reflexivity. Qed.
 Print Assumptions handler_loops_receive_until_close.
 
+(* Over the regenerated inventory of reader/: every Lock()/RLock() statement is given back on every way out of its
+   region (deferred Unlock, or an explicit Unlock with every return in between unlocking first) -- a lock kept on an
+   error path (e.g. GetVersionInfo when SHOW TABLES fails) would block every later request forever. *)
+Theorem locks_released_on_every_path : locks_ok reader_locks = true.
+Proof. vm_compute. reflexivity. Qed.
+Print Assumptions locks_released_on_every_path.
+
 (* ... and that is needed: a handler loop that returns at the first failed write breaks the contract. *)
 Theorem handler_must_not_stop_at_a_failed_write : ~ good_node (handler_node (S:=st) (M:=msg) false).
 Proof. exact handler_must_keep_receiving. Qed.
@@ -146,7 +153,7 @@ Print Assumptions accepted_requests_have_safe_context.
    1.7e9 float64 per series: the allocation fails in a goroutine nothing can recover. *)
 Definition huge_range_request : request :=
   mkReq false true (Some ShRate) 60 (PNum 0) (PNum 1700000000) (PNum 1000) PAbsent
-        [mkRow 1 1699999000000000000 2 ROk] (-1) false.
+        [mkRow 1 1699999000000000000 2 ROk] (-1) false false.
 Theorem no_fault_in_unrecovered_code_refuted :
   exists q sh c, prelude_of q = PRun sh c /\ model_outcome q = OCrash.
 Proof. exists huge_range_request. eexists _, _. split; vm_compute; reflexivity. Qed.
